@@ -177,7 +177,7 @@ func (h *harness) amplification() {
 			case strings.Contains(res.out, "CHILD-RESULT tree"):
 				st.count["amplification_parsed_within_limit"]++
 				shape += "/tree"
-			case strings.Contains(res.out, "out of memory") || strings.Contains(res.out, "cannot allocate"):
+			case memoryExhaustionAbort(res.out):
 				st.count["amplification_child_aborted_out_of_memory"]++
 				shape += "/oom"
 				head := res.out
@@ -199,4 +199,25 @@ func (h *harness) amplification() {
 			c.Done(shape, true)
 		})
 	}
+}
+
+// memoryExhaustionAbort recognises the ways the Go runtime ends a process that ran into its address-space
+// limit. Besides "out of memory" the runtime may fail while creating a thread or mapping a stack / arena
+// ("failed to create new OS thread", "pthread_create failed", "newosproc", "errno=12", "errno=11", mmap
+// failures): the same event, reported by whichever allocation hit the limit first (seen in a fresh sandbox:
+// one of ten children died with exit 2 and none of the first two texts). A Go panic, a stack overflow, a
+// deadlock report or a concurrent-map fatal are different defects and stay `child-died`.
+func memoryExhaustionAbort(out string) bool {
+	for _, different := range []string{"panic:", "stack overflow", "all goroutines are asleep", "concurrent map"} {
+		if strings.Contains(out, different) {
+			return false
+		}
+	}
+	for _, pat := range []string{"out of memory", "cannot allocate", "failed to create new OS thread", "pthread_create failed",
+		"newosproc", "errno=12", "errno=11", "mmap", "failed to allocate", "fatal error:", "runtime: "} {
+		if strings.Contains(out, pat) {
+			return true
+		}
+	}
+	return false
 }
